@@ -89,6 +89,12 @@ class DMid:
         self.c, self.p, self.r = c, p, "r-of-mid"
 
 
+class DTop:
+    def __init__(self, child: DMid = None, p: Any = "unset"):
+        LOG.append(("DTop", {"child": child, "p": p}))
+        self.child, self.p = child, p
+
+
 class DSrc:
     def __init__(self, p: Any = "unset"):
         LOG.append(("DSrc", {"p": p}))
@@ -455,7 +461,31 @@ def deep_family(ctx, only=None):
         if init.d.y != 16 or init.b.p != "MODEL.out":
             return "linked-parameter-has-wrong-value", {"d.y": short(init.d.y, 40), "b.p": short(init.b.p, 40)}
 
-    scen = {"S0": s0, "S1": s1, "S2": s2, "S3": s3, "S4": s4, "S5": s5}
+    def s6(case):
+        # a target three levels below a class group whose intermediate level is not itself a target, next to a link to the group itself
+        p = ArgumentParser(exit_on_error=False)
+        for nm in case["decl"]:
+            if nm == "a":
+                p.add_class_arguments(DSrc, "a")
+            elif nm == "b":
+                p.add_class_arguments(DTop, "b")
+            else:
+                p.add_class_arguments(DSink, "d")
+        links = [("a", "b.child.init_args.c.init_args.x"), ("d", "b.p")]
+        for src, tgt in (links if case["links"] == 0 else links[::-1]):
+            p.link_arguments(src, tgt, apply_on="instantiate")
+        del LOG[:]
+        init = p.instantiate_classes(p.parse_args(["--b.child=" + mid_spec]))
+        names = [x[0] for x in LOG]
+        if sorted(names) != ["DLeaf", "DMid", "DSink", "DSrc", "DTop"]:
+            return "class-not-constructed-exactly-once", {"constructed": names}
+        pos = {n: i for i, n in enumerate(names)}
+        if not (pos["DSrc"] < pos["DLeaf"] < pos["DMid"] < pos["DTop"] and pos["DSink"] < pos["DTop"]):
+            return "source-constructed-after-dependant", {"constructed": names}
+        if init.b.child.c.x is not init.a or init.b.p is not init.d:
+            return "linked-parameter-has-wrong-value", {"c.x": short(init.b.child.c.x, 80), "b.p": short(init.b.p, 80)}
+
+    scen = {"S0": s0, "S1": s1, "S2": s2, "S3": s3, "S4": s4, "S5": s5, "S6": s6}
     for name, fn in scen.items():
         for decl in itertools.permutations(["a", "b", "d"]):
             for links in (0, 1):
